@@ -61,6 +61,9 @@ mod options;
 mod probes;
 mod report;
 mod reportgen;
+/// Verification hooks, compiled only with `--cfg iroh_verif`.
+#[cfg(all(iroh_verif, not(wasm_browser), with_crypto_provider))]
+pub mod verif_hooks;
 
 #[cfg(not(wasm_browser))]
 #[allow(missing_docs)]
